@@ -5,6 +5,7 @@ import (
 	"math/rand"
 	"os"
 	"path/filepath"
+	"reflect"
 	"regexp"
 	"runtime"
 	"sort"
@@ -76,6 +77,9 @@ func runC16(c *Ctx, idx int) {
 	if sc.Opts.PopSize < 8 {
 		sc.Opts.PopSize = pick(r, 8, 20, 33, 60)
 	}
+	if idx%4 == 0 {
+		sc.Opts.NewLinkTries = 0
+	}
 	if sc.Opts.PopSize > 80 {
 		sc.Opts.PopSize = 80
 	}
@@ -119,6 +123,11 @@ func c16ColdStarts(c *Ctx) {
 		sc.Opts.MutateOnlyProb = 1
 		sc.Opts.MutateAddNodeProb = pick(r, 1.0, 0.7, 0.4)
 		sc.Opts.MutateAddLinkProb = pick(r, 1.0, 0.5)
+		if k%3 == 0 {
+			// the number of tries left unconfigured (zero): a setting like any other, read by every reproduction goroutine
+			sc.Opts.NewLinkTries = 0
+			c.Count("cold_starts.newlink_tries_unconfigured", 1)
+		}
 		for len(sc.Opts.NodeActivators) < 2 {
 			sc.Opts.NodeActivators = append(sc.Opts.NodeActivators, scalarActivations[r.Intn(len(scalarActivations))])
 			sc.Opts.NodeActivatorsProb = append(sc.Opts.NodeActivatorsProb, 0.5)
@@ -152,6 +161,7 @@ type parMonitor struct {
 	storing            map[int]bool
 	dcount             int64
 	sorted, sortedCopy []*genetics.Species
+	optsBefore         neat.Options
 }
 
 func (m *parMonitor) record(kind int, species int) {
@@ -221,6 +231,7 @@ func (m *parMonitor) BeforeEpoch(c *Ctx, sc *EvoScenario, gen int, pop *genetics
 	m.events = nil
 	m.storing = map[int]bool{}
 	m.mu.Unlock()
+	m.optsBefore = *sc.Opts
 	m.wf.BeforeEpoch(c, sc, gen, pop)
 	m.pop.BeforeEpoch(c, sc, gen, pop)
 	m.innov.BeforeEpoch(c, sc, gen, pop)
@@ -231,6 +242,14 @@ func (m *parMonitor) AfterEpoch(c *Ctx, sc *EvoScenario, gen int, pop *genetics.
 		return false
 	}
 	c.Count("epochs.parallel", 1)
+	// the options object is read by every reproduction goroutine without synchronisation: whoever writes to it during the
+	// turnover races with all of them (the race detector sees such a write only under schedules in which no lock of the
+	// global random source happens to order it, so the value itself is watched as well)
+	if !reflect.DeepEqual(m.optsBefore, *sc.Opts) {
+		c.Violate("shared-options-written", map[string]interface{}{"scenario": sc.brief(), "generation": gen, "before": optsBrief(&m.optsBefore), "after": optsBrief(sc.Opts)},
+			"the turnover wrote to the options object that all reproduction goroutines read concurrently (NewLinkTries %d -> %d, ...)", m.optsBefore.NewLinkTries, sc.Opts.NewLinkTries)
+		return false
+	}
 	// the monitors count their own "epochs" keys; they are part of the evidence of this property as well
 	c.distinctOff = true
 	ok1 := m.pop.AfterEpoch(c, sc, gen, pop, err)
